@@ -42,9 +42,10 @@ CLAIMED = {
     "C04": ("Mechanism level: a first transmission is rejected by validation unless DUP=0 and no id; at disconnection every in-flight QoS1/2 publish (awaiting PUBACK/PUBREC, PUBREL queued "
             "or half encoded, retransmission half encoded, also on a resumed connection) ends exactly once in the retransmission queue with DUP=1, the same id and reservation and its "
             "PUBREL slot, whatever the policy, never failed; session present keeps it unchanged; session absent restarts it as a fresh publish (DUP=0, no id, PUBREL forgotten) or fails it "
-            "by policy; a successful PUBREC sets the PUBREL slot with the same id (thorough tier).",
-            REC + "Outside the claim: that the sender then emits PUBREL rather than PUBLISH (three lines in service_queue_aux), 'never again after completion', duplicate PUBREC within one "
-            "connection, and the wire history over several connections (service loop not executable symbolically).", "5 C04", TECH),
+            "by policy; one pass of the real send loop (encoder, send-time validation and completion recorded) hands the PUBREL with the same id -- never the PUBLISH again -- to the encoder once a PUBREC has been received, "
+            "also for a retransmission on a resumed session; a successful PUBREC sets the PUBREL slot with the same id (thorough tier).",
+            REC + "Outside the claim: 'never again after completion', duplicate PUBREC within one connection, and the wire history over several connections (only single passes of the send loop with one "
+            "or two queued operations are executed, with the encoder replaced by a recorder).", "5 C04", TECH),
     "C05": ("One inbound PUBLISH (symbolic QoS/id/DUP, inbound set of 0..2 symbolic ids) is surfaced iff it is not an unreleased QoS2 id and queues exactly one PUBACK/PUBREC with its id at "
             "the back of the high-priority queue; PUBREL removes exactly its id and queues one PUBCOMP at the back; session loss clears the set, session resumption keeps it.",
             "Outside the claim: that the queued acknowledgement is eventually encoded (service loop), dispatch_packet_events in the client, and two-step inbound sequences as single queries "
@@ -90,13 +91,15 @@ CLAIMED = {
             "failed with the offline-policy error; in-flight QoS1/2 publishes are retained whatever the policy.",
             REC + "Outside the claim: that a failed operation is never sent later and a kept one is sent after reconnection (service loop / histories).", "5 C15", TECH),
     "C16": ("validate_*_outbound for PUBLISH/SUBSCRIBE/UNSUBSCRIBE/DISCONNECT with symbolic field lengths 0..70000 and scalars: accepted iff every static rule holds (both directions); validate_*_outbound_internal against symbolic "
-            "negotiated settings with the packet size computed by an independent layout oracle; build_negotiated_settings field by field.",
+            "negotiated settings with the packet size computed by an independent layout oracle; build_negotiated_settings field by field; in the real send loop an operation is validated when it is dequeued (after its id "
+            "is bound) and one that fails is failed locally with the validation error and never reaches the encoder.",
             "Outside the claim: topic/filter grammar beyond the fixed-shape thorough harnesses (str::split on symbolic content did not finish), scanned fields of 5..65535 bytes, the engine calling the validators at the right moments. "
             "One recorded known finding: subscription_identifiers_available is never consulted (known_findings.json).", "5 C16", TECH),
     "C17": ("Manual and LRU outbound resolvers (LRU with configured size above/below the server's maximum) over all publish sequences of length 3-4 on three topics, checked against a model of the server's alias table: no alias 0 or above the "
             "negotiated maximum, empty topic only for an alias the server has bound to exactly that topic on this connection, nothing with maximum 0, bindings do not survive reset; inbound resolver over all sequences of length 3 incl. a reconnect; "
             "PUBLISH wire layout for the three resolution outcomes and for 3.1.1 (with C02).",
-            "Outside the claim: resolver state vs what reached the wire when an operation fails validation after alias resolution (DESIGN.md D10; needs service_queue_aux); lru::LruCache itself (replaced by its contract model).", "5 C17", TECH),
+            "Also: an aliased publish that fails send-time validation in the real send loop leaves no binding behind that the server has not seen (found and repaired: DESIGN.md D10). "
+            "Outside the claim: lru::LruCache itself (replaced by its contract model); operations interrupted between alias resolution and transmission by a disconnect (the resolver is reset at every CONNACK, handle_connack's success path is not executable).", "5 C17", TECH),
     "C18": ("start_operation_ack_timeout records (operation, now + T) iff the operation carries a representable timeout, for any Duration; get_next_ack_timeout / process_ack_timeouts fail exactly the records whose deadline has passed, earliest "
             "first, never before the deadline; interruption counting increments exactly the written-but-unacknowledged operations when a limit is set; the (N+1)-th interruption fails with the retries-exceeded error, fewer do not.",
             REC + "Outside the claim: 'never if the acknowledgement arrived first' (a stale heap record meets complete_operation_as_failure's 'does not exist' branch, inside the stubbed function).", "5 C18", TECH),
